@@ -262,6 +262,10 @@ def r4(run, ctx):
               'every write is flushed', wf, wf.node)
 
 
+def flat(t):
+    return t.replace('(', '').replace(')', '').replace(' ', '')
+
+
 def r5(run, ctx):
     run.rule('R5', 'line prefix')
     wf = ctx.fn(B + 'write_data')
@@ -292,27 +296,41 @@ def r5(run, ctx):
                       construct='line prefix shape')
         run.check('R5', guarded(cfg, pre[0], tf, True), 'the prefix is built only with a '
                   'time_format', wf, pre[0].ast)
-    steps = ["file_data = prefix + file_data.rstrip('\\n')",
-             "file_data = file_data.replace('\\n', '\\n' + prefix)", "file_data += '\\n'"]
-    pos = [t.find(s) for s in steps]
-    run.check('R5', all(p >= 0 for p in pos) and pos == sorted(pos),
-              'first line, every following line and the final newline: prefix + line for every '
-              'line', wf, wf.node, 'with a time_format not every line carries the prefix (steps '
-              'found at %s)' % pos, construct='prefix every line')
-    wr = [n for n in ctx.live_nodes(wf) if any(astq.call_last(c) == 'write' and c.args and
-                                               norm_text(c.args[0]) == 'file_data' for c in n.calls())]
-    run.check('R5', bool(wr), 'the prefixed text is what is written', wf, wf.node)
-    first = [n for n in ctx.live_nodes(wf) if n.kind == 'stmt' and isinstance(n.ast, ast.Assign) and
-             norm_text(n.ast.targets[0]) == 'file_data' and "data['data']" in norm_text(n.ast.value)]
-    run.check('R5', len(first) == 1 and norm_text(first[0].ast.value) == "to_str(data['data'])",
-              'without a time_format the text written is exactly the payload', wf,
-              first[0].ast if first else wf.node)
-    mods = [n for n in ctx.live_nodes(wf) if n.kind == 'stmt' and
-            isinstance(n.ast, (ast.Assign, ast.AugAssign)) and
-            any(isinstance(x, ast.Name) and x.id == 'file_data' for x in astq.attr_targets(n.ast))
-            and n not in first]
-    for n in mods:
-        inh = any(cfg.dominates([hn], n) for hn in cfg.nodes if hn.kind == 'except')
-        run.check('R5', guarded(cfg, n, tf, True) or inh, 'the payload is modified only for the '
-                  'prefix (or the latin-1 fallback)', wf, n.ast,
-                  'without a time_format the file is not an exact copy: %s' % norm_text(n.ast))
+    # what is handed to the first write(): the payload itself, or - with a time_format -
+    # prefix + every line; decided on the expansions of the written expression
+    pname = norm_text(pre[0].ast.targets[0]) if pre else 'prefix'
+    writes = [(n, c) for n in ctx.live_nodes(wf) for c in n.calls()
+              if astq.call_last(c) == 'write' and c.args]
+    handlers = [hn for hn in cfg.nodes if hn.kind == 'except']
+    first_w = [(n, c) for n, c in writes if not any(cfg.dominates([hn], n) for hn in handlers)]
+    want_plain = "to_str(data['data'])"
+    want_pref = ("(%s + to_str(data['data']).rstrip('\\n')).replace('\\n', '\\n' + %s) + '\\n'"
+                 % (pname, pname))
+    seen = set()
+    if run.need('R5', first_w, 'write of the record text', wf):
+        for n, c in first_w:
+            for alt in rd.expand(n, c.args[0], stop=(pname,)):
+                t = alt.text()
+                site = alt.used[0].ast if alt.used else n.ast
+                if t == want_plain:
+                    seen.add('plain')
+                    run.check('R5', not rd.feasible(alt, lambda e: tf(e)),
+                              'without a time_format the text written is exactly the payload '
+                              '(and only then)', wf, site,
+                              'with a time_format a record can be written without its prefix',
+                              construct='unprefixed write with time_format')
+                elif flat(t) == flat(want_pref):
+                    seen.add('prefixed')
+                    run.check('R5', not rd.feasible(alt, lambda e: (
+                        None if tf(e) is None else (not tf(e)))),
+                        'the prefix is added only with a time_format', wf, site,
+                        'without a time_format the file is not an exact copy of the payload',
+                        construct='prefixed write without time_format')
+                else:
+                    run.fail('R5', wf, site, 'with a time_format not every line carries the '
+                             'prefix, or the payload is altered: the text written is %s' % t[:160],
+                             construct='prefix every line')
+        run.check('R5', seen == {'plain', 'prefixed'}, 'first line, every following line and the '
+                  'final newline: prefix + line for every line; the bare payload otherwise', wf,
+                  wf.node, 'forms of the written text found: %s' % sorted(seen),
+                  construct='written text forms')
